@@ -102,3 +102,22 @@ Theorem purge_once_refuted :
   o_nodes (delete_many_once ns [1]) = [mkEl 3 None [30] [mkRef 7 true [20]] None] /\
   o_nodes (delete_many ns [1]) = [mkEl 3 None [30] [mkRef 7 true []] None].
 Proof. split; reflexivity. Qed.
+
+(* all-or-nothing for a call with several targets *)
+Theorem guarded_many_all_or_nothing refuses ns ts :
+  match delete_guarded_many refuses ns ts with
+  | None => exists n, In n ns /\ refuses n = true /\ below ns ts (e_h n) = false
+  | Some o => o = delete_many ns ts
+  end.
+Proof.
+  unfold delete_guarded_many. destruct (existsb _ ns) eqn:E; [|reflexivity].
+  apply existsb_exists in E as [n [Hn H]]. apply andb_true_iff in H as [H _]. apply andb_true_iff in H as [H1 H2].
+  apply negb_true_iff in H1. eauto.
+Qed.
+(* deleting the targets one call after the other is NOT all-or-nothing: the call raises after the first target is gone *)
+Theorem sequential_delete_refuted :
+  let ns := [mkEl 1 None [10] [] None; mkEl 2 None [20] [] None; mkEl 3 None [30] [mkRef 7 true [20]] None] in
+  let refuses := fun n => e_h n =? 3 in
+  delete_guarded_many refuses ns [1; 2] = None /\
+  delete_seq refuses ns [1; 2] = ([mkEl 2 None [20] [] None; mkEl 3 None [30] [mkRef 7 true [20]] None], true).
+Proof. split; reflexivity. Qed.
